@@ -122,12 +122,14 @@ SelectAtOK(which, at, r) ==
     /\ Len(r) = Len(at)
     /\ \A j \in 1..Len(at) : r[j] = SelOutcome(which, at[j])
 SelectAt(which, at, r) == SelectAtOK(which, at, r) /\ UNCHANGED vec
-(* "select0 likewise WHERE OFFERED": an implementation that refuses every select0 does not *)
-(* offer it (counted as vacuous for that subject, never as a success)                      *)
-SelectNotOfferedOK(which, r) ==
-    /\ which = "select0"
+(* "select0 likewise WHERE OFFERED": an implementation that refuses every select0 saying   *)
+(* that the operation is not implemented (why = "unimplemented", the class of its own error *)
+(* messages) does not offer it: counted as vacuous for that subject, never as a success.    *)
+(* A refusal claiming that k is out of range is judged by SelectAll.                        *)
+SelectNotOfferedOK(which, r, why) ==
+    /\ which = "select0" /\ why = "unimplemented"
     /\ \A j \in 1..Len(r) : r[j] = Refused
-SelectNotOffered(which, r) == SelectNotOfferedOK(which, r) /\ UNCHANGED vec
+SelectNotOffered(which, r, why) == SelectNotOfferedOK(which, r, why) /\ UNCHANGED vec
 (* ONE call answering many k (bulk entry points, Result<Vec<_>>): succeeds with every     *)
 (* position when all k are valid, fails when some k >= count                              *)
 SelectBatchOK(which, at, ok, r) ==
